@@ -8,9 +8,12 @@
 package main
 
 import (
+	"bytes"
 	"fmt"
+	"io"
 	"math/rand"
 	"net"
+	"net/http"
 	"sync"
 	"sync/atomic"
 	"time"
@@ -22,6 +25,8 @@ import (
 	"verifharness/lib/refenc"
 	"verifharness/lib/run"
 )
+
+var churnClient = &http.Client{Timeout: 10 * time.Second, Transport: &http.Transport{MaxIdleConnsPerHost: 32, IdleConnTimeout: time.Second, DisableCompression: true}}
 
 func waitSent(sent *atomic.Int64, target int64) bool {
 	for i := 0; sent.Load() < target; i++ {
@@ -44,6 +49,30 @@ func childChurn(b run.Batch, r *ev.Result, rng *rand.Rand) {
 	}
 	defer w.finish()
 	drv.SetClock(1200)
+	// requests of the concurrent phases: a request that gets no answer within
+	// 10 s ends its phase early (the verdict then comes from the probes after
+	// the phase, never from this timeout)
+	var stalled atomic.Bool
+	cdo := func(method, pq string, body []byte) (int, error) {
+		var rd io.Reader
+		if body != nil {
+			rd = bytes.NewReader(body)
+		}
+		req, err := http.NewRequest(method, fmt.Sprintf("http://127.0.0.1:%d%s", w.HTTP, pq), rd)
+		if err != nil {
+			return 0, err
+		}
+		resp, err := churnClient.Do(req)
+		if err != nil {
+			if isTimeout(err) {
+				stalled.Store(true)
+			}
+			return 0, err
+		}
+		io.Copy(io.Discard, resp.Body)
+		resp.Body.Close()
+		return resp.StatusCode, nil
+	}
 
 	// ---- (a) reports under fire while their device is banned
 	nv := b.N
@@ -133,6 +162,77 @@ func childChurn(b run.Batch, r *ev.Result, rng *rand.Rand) {
 		return
 	}
 
+	stalled.Store(false)
+	// ---- (c) sync pollers for an authorized device while new servers (peers down) are onboarded
+	port, release, err := closedPort()
+	if err != nil {
+		r.Inconc("no closed port: " + err.Error())
+		return
+	}
+	defer release()
+	ns := 50 + rng.Intn(51)
+	srvBodies := make([][]byte, ns)
+	for i := range srvBodies {
+		srvBodies[i] = refenc.AuthServer{Pub: refenc.GenKey(rng).Pub, Location: "127.0.0.1", HTTP: port, TCP: 1, UDP: 2}.Signed(w.GCAk.Priv).JSON()
+	}
+	run.Op("churn: 40 sync pollers for device %d while %d servers with down peers are onboarded by 4 clients", w.probes[0].ID, ns)
+	var sdone atomic.Bool
+	var syncs, srvOK atomic.Int64
+	var sw sync.WaitGroup
+	for g := 0; g < 40; g++ {
+		sw.Add(1)
+		go func() {
+			defer sw.Done()
+			for !sdone.Load() && !stalled.Load() {
+				c, err := w.dial(w.TCP)
+				if err != nil {
+					continue
+				}
+				c.SetDeadline(time.Now().Add(8 * time.Second))
+				c.Write(idBytes(w.probes[0].ID))
+				buf := make([]byte, 1<<16)
+				if n, err := c.Read(buf); n > 1 {
+					syncs.Add(1)
+				} else if isTimeout(err) {
+					stalled.Store(true)
+				}
+				c.Close()
+			}
+		}()
+	}
+	var ow sync.WaitGroup
+	var nextS atomic.Int64
+	for g := 0; g < 4; g++ {
+		ow.Add(1)
+		go func() {
+			defer ow.Done()
+			for {
+				i := int(nextS.Add(1)) - 1
+				if i >= ns || stalled.Load() {
+					return
+				}
+				if st, err := cdo("POST", "/api/v1/authorized-servers", srvBodies[i]); err == nil && st == 200 {
+					srvOK.Add(1)
+				}
+			}
+		}()
+	}
+	ow.Wait()
+	sdone.Store(true)
+	sw.Wait()
+	r.Eval(ns)
+	r.Count("inputs.http", int64(ns))
+	r.Count("inputs.http.churn", int64(ns))
+	r.Count("churn.servers_onboarded_under_sync_polling", srvOK.Load())
+	r.Count("churn.syncs_answered_during_onboarding", syncs.Load())
+	w.rm["authorized-servers POST"] = true
+	r.Nontrivial(fmt.Sprintf("churn/onboard/%d", b.Seed))
+	w.checkStderr("sync polling during server onboarding")
+	if !w.live("sync polled while servers were onboarded") {
+		return
+	}
+
+	stalled.Store(false)
 	// ---- (b) GET /equipment pollers while many devices are authorized
 	na := 300 + rng.Intn(301)
 	auths := make([][]byte, na)
@@ -147,8 +247,8 @@ func childChurn(b run.Batch, r *ev.Result, rng *rand.Rand) {
 		pw.Add(1)
 		go func() {
 			defer pw.Done()
-			for !done.Load() {
-				if st, _, err := w.do("GET", "/api/v1/equipment", nil); err == nil && st == 200 {
+			for !done.Load() && !stalled.Load() {
+				if st, err := cdo("GET", "/api/v1/equipment", nil); err == nil && st == 200 {
 					polls.Add(1)
 				}
 			}
@@ -162,10 +262,10 @@ func childChurn(b run.Batch, r *ev.Result, rng *rand.Rand) {
 			defer aw.Done()
 			for {
 				i := int(next.Add(1)) - 1
-				if i >= na {
+				if i >= na || stalled.Load() {
 					return
 				}
-				if st, _, err := w.do("POST", "/api/v1/authorize-equipment", auths[i]); err == nil && st == 200 {
+				if st, err := cdo("POST", "/api/v1/authorize-equipment", auths[i]); err == nil && st == 200 {
 					accepted.Add(1)
 				}
 			}
@@ -183,5 +283,49 @@ func childChurn(b run.Batch, r *ev.Result, rng *rand.Rand) {
 	w.rm["equipment GET"], w.rm["authorize-equipment POST"] = true, true
 	r.Nontrivial(fmt.Sprintf("churn/poll/%d", b.Seed))
 	w.checkStderr("equipment polling during authorizations")
-	w.live("equipment polled while devices were authorized")
+	if !w.live("equipment polled while devices were authorized") {
+		return
+	}
+
+	stalled.Store(false)
+	// ---- (d) statistics of the current window polled across rotations (many devices)
+	for rot := 0; rot < 2; rot++ {
+		off := w.offset()
+		drv.SetClock(off + 3201)
+		run.Op("churn: 6 pollers of all-device-stats?timeslot_offset=%d across the rotation of that window", off)
+		var rdone atomic.Bool
+		var statsOK atomic.Int64
+		var rw sync.WaitGroup
+		for g := 0; g < 6; g++ {
+			rw.Add(1)
+			go func() {
+				defer rw.Done()
+				for !rdone.Load() && !stalled.Load() {
+					if st, err := cdo("GET", fmt.Sprintf("/api/v1/all-device-stats?timeslot_offset=%d", off), nil); err == nil && st == 200 {
+						statsOK.Add(1)
+					}
+				}
+			}()
+		}
+		for i := 0; statsOK.Load() < 2 && i < 4000 && !stalled.Load(); i++ { // pollers are at work
+			time.Sleep(5 * time.Millisecond)
+		}
+		n := drv.StepRotation()
+		before := statsOK.Load()
+		for i := 0; statsOK.Load() < before+6 && i < 4000 && !stalled.Load(); i++ { // and still answered afterwards
+			time.Sleep(5 * time.Millisecond)
+		}
+		rdone.Store(true)
+		rw.Wait()
+		r.Eval(1)
+		r.Count("inputs.rotation_under_stats_polling", 1)
+		r.Count("rotations.live", int64(n))
+		r.Count("churn.rotations_under_stats_polling", int64(n))
+		r.Count("churn.stats_answered_across_rotation", statsOK.Load())
+		w.rm["all-device-stats GET"] = true
+		w.checkStderr(fmt.Sprintf("all-device-stats?timeslot_offset=%d polled across the rotation", off))
+		if !w.live("statistics polled across a rotation") {
+			return
+		}
+	}
 }
